@@ -41,9 +41,14 @@ var pkgRe = regexp.MustCompile(`(?m)^package\s+(\w+)`)
 // binary builds (once) the native test binary of the package a harness lives in, from
 // /repo's working tree plus the overlaid harness files.
 func (r *replayer) binary(hs harnessSpec) (string, error) {
-	if b, ok := r.bins[hs.Dir]; ok {
+	race := hs.Opts["race"] == "true"
+	binKey := hs.Dir
+	if race {
+		binKey += "#race"
+	}
+	if b, ok := r.bins[binKey]; ok {
 		if b == "" {
-			return "", fmt.Errorf("%s", r.buildErr[hs.Dir])
+			return "", fmt.Errorf("%s", r.buildErr[binKey])
 		}
 		return b, nil
 	}
@@ -73,6 +78,9 @@ func (r *replayer) binary(hs harnessSpec) (string, error) {
 	}
 	fmt.Fprintf(&tb, "\t})\n}\n")
 	key := strings.ReplaceAll(hs.Dir, "/", "_")
+	if race {
+		key += "_race"
+	}
 	testFile := filepath.Join(r.scratch, key+"_replay_test.go")
 	os.WriteFile(testFile, []byte(tb.String()), 0o644)
 	ov := map[string]map[string]string{"Replace": {}}
@@ -84,16 +92,21 @@ func (r *replayer) binary(hs harnessSpec) (string, error) {
 	ovFile := filepath.Join(r.scratch, key+"_overlay.json")
 	os.WriteFile(ovFile, ovb, 0o644)
 	bin := filepath.Join(r.scratch, key+".test")
-	cmd := exec.Command("go", "test", "-c", "-vet=off", "-tags", "verif", "-overlay", ovFile, "-o", bin, "./"+hs.Dir)
+	args := []string{"test", "-c", "-vet=off", "-tags", "verif", "-overlay", ovFile, "-o", bin}
+	if race {
+		args = append(args, "-race")
+	}
+	args = append(args, "./"+hs.Dir)
+	cmd := exec.Command("go", args...)
 	cmd.Dir = filepath.Join(*flagRepo, "lib")
 	cmd.Env = append(os.Environ(), "GOFLAGS=-mod=mod", "GOPROXY=off", "GOSUMDB=off", "GOTOOLCHAIN=local")
 	out, err := cmd.CombinedOutput()
 	if err != nil {
-		r.bins[hs.Dir] = ""
-		r.buildErr[hs.Dir] = fmt.Sprintf("native build failed: %v\n%s", err, out)
-		return "", fmt.Errorf("%s", r.buildErr[hs.Dir])
+		r.bins[binKey] = ""
+		r.buildErr[binKey] = fmt.Sprintf("native build failed: %v\n%s", err, out)
+		return "", fmt.Errorf("%s", r.buildErr[binKey])
 	}
-	r.bins[hs.Dir] = bin
+	r.bins[binKey] = bin
 	return bin, nil
 }
 
@@ -148,9 +161,24 @@ func (r *replayer) replay(hs harnessSpec, tier string, v sym.Violation) (string,
 	name := fmt.Sprintf("%s-%s-%x.json", hs.Name, sanitize(v.Assert), h[:6])
 	tmp := filepath.Join(r.scratch, name)
 	os.WriteFile(tmp, b, 0o644)
-	out, timedOut := r.runNative(hs, []string{"VERIF_REPLAY=" + tmp}, 30*time.Second)
+	env := []string{"VERIF_REPLAY=" + tmp}
+	limit := 30 * time.Second
+	if hs.Opts["race"] == "true" {
+		env = append(env, "VERIF_RACE=1")
+		limit = 180 * time.Second
+	}
+	out, timedOut := r.runNative(hs, env, limit)
 	ok := false
+	if strings.HasPrefix(v.Assert, "C10.no-shared-write") {
+		// engine-level instrumentation: confirmed natively by the race detector or by a diverging concurrent response
+		ok = strings.Contains(out, "DATA RACE") || strings.Contains(out, "id=C10.concurrent-equals-sequential")
+		v.Assert = "C10.no-shared-write(confirmed by race run)"
+		if !ok {
+			return "", false, out
+		}
+	}
 	switch v.Assert {
+	case "C10.no-shared-write(confirmed by race run)":
 	case "uncaught-panic":
 		ok = strings.Contains(out, "outcome=panicked")
 	case "budget":
